@@ -128,6 +128,23 @@ Fixpoint seq_hist (s : kst) (h : list Z) (os : list op) : option (kst * list Z *
       end
   end.
 
+(** closed form of [n >= 1] create/delete cycles of the index at the head of the
+    free list ([Create d; Delete k] repeated; the list is LIFO, so every creation
+    returns the same index [k = kfree s]): only the destructor and the generation
+    of that cell change.  Proved equal (field by field) to running the [2 n]
+    calls in Tls/TlsKeysProofs.v ([cycles_closed_form]); the driver uses it for the
+    long histories (tens of thousands of cycles) of the correspondence runs. *)
+Definition cycle_n (s : kst) (d n : Z) : kst :=
+  let k := kfree s in
+  mkK k (knext s) (fupd (kdtor s) k d)
+      (if tagged then fupd (kgen s) k ((kgen s k + n) mod GEN_MOD) else kgen s).
+
+Fixpoint cyc (k d : Z) (n : nat) : list op :=
+  match n with O => [] | S m => Create d :: Delete k :: cyc k d m end.
+
+Fixpoint cyc_results (k d : Z) (n : nat) : list Z :=
+  match n with O => [] | S m => k :: d :: cyc_results k d m end.
+
 (** ** interleaving system (coq/Lib/Interleave.v): any number of threads *)
 Record state := mkS { ks : kst; held : list Z; threads : list pc }.
 Inductive ev := Call (o : op) | Tick | Ret.
